@@ -408,6 +408,11 @@ fn other_one<B: FA, H: ElementHasher<BaseField = B> + Send + Sync>(c: &OtherCase
         obs.label("honest-not-accepted");
         return Ok(());
     }
+    if inst.weak_seed_binding() {
+        // all-constant trace and few queries: the proof is tied to its seed by the query positions only
+        obs.label("excluded:constant-trace-below-40-seed-bits");
+        return Ok(());
+    }
     if c.kind < 9 {
         let (d2, what) = perturb_desc(&fp, &desc, &inst.trace, c.kind, c.sel, c.sel2);
         obs.label(format!("pub:{what}"));
@@ -465,6 +470,16 @@ fn other_one<B: FA, H: ElementHasher<BaseField = B> + Send + Sync>(c: &OtherCase
             return Ok(());
         }
         obs.nontrivial();
+        // two different contexts that are encoded into the very same public-coin seed elements (metadata
+        // that differs only by trailing zero bytes inside the last chunk) form their own failure class
+        use winter_math::ToElements;
+        let same_seed = ToElements::<B>::to_elements(&ctx) == ToElements::<B>::to_elements(&proof.context);
+        let what: &str = if same_seed {
+            obs.label("ctx:same-seed-elements");
+            "context-with-identical-seed-elements"
+        } else {
+            what
+        };
         let p2 = Proof { context: ctx, ..proof };
         match verify_with::<B, H, DefaultRandomCoin<H>>(p2, &desc, &min_sec0()) {
             VerifyOutcome::Ok => Err(Fail::new(format!("accepted-other-context/{what}"), format!("a proof was accepted after its context was changed ({what})"))),
